@@ -1,5 +1,6 @@
 (* C06 — The broker's Receive Maximum is never exceeded.  Statements only. *)
 From Coq Require Import List NArith.
+From Minimq Require Import QuotaRefuted.
 From Minimq Require Import Bytes Varint Utf8 Props Ser De Reader Arena Core Show Machine Parse Run.
 From Minimq Require Import Lts Inv Quota Reach.
 Import ListNotations.
@@ -42,9 +43,19 @@ Theorem C06_no_exchange_dropped : forall s pid rc,
   snd (handle_packet s (RPubRec pid rc)) <> HErr EInflightExhausted.
 Proof. exact pubrec_never_exhausted. Qed.
 
+(* outside the environment assumption (known finding K06r): the window the broker grants on a resumed connection is
+   smaller than the number of publishes the client holds, one of which never reached the wire; all are sent *)
+Theorem C06_refuted_unsent_beyond_window :
+  exists w, k06r_world = Some w /\
+    w_envok w = false /\ rt_maxquota (s_rt (w_sess w)) = 1 /\
+    unresolved_publishes (s_ob (w_sess w)) = 2 /\
+    Forall (fun e => re_st e = SSent) (ob_ret (s_ob (w_sess w))).
+Proof. exact window_refuted_unsent_publish. Qed.
+
 Print Assumptions C06_window.
 Print Assumptions C06_step.
 Print Assumptions C06_limit_established.
 Print Assumptions C06_limit_kept.
 Print Assumptions C06_refused.
 Print Assumptions C06_no_exchange_dropped.
+Print Assumptions C06_refuted_unsent_beyond_window.
